@@ -1,7 +1,69 @@
 import ASV.Drv.J
+import ASV.Spec.Bases
+import ASV.Spec.Candidates
 namespace ASV.Drv.C05
-open Lean ASV ASV.Drv
+open Lean ASV ASV.Drv ASV.CC
 
-def handle (_j : Json) : R Json := throw "C05: no model yet"
+def kindToStr : Kind → String
+  | .single => "single" | .interleaved => "interleaved"
+  | .neighbouring => "neighbouring" | .hybrid => "chemical_hybrid"
+
+def kindOfStr : String → R Kind
+  | "single" => pure .single | "interleaved" => pure .interleaved
+  | "neighbouring" => pure .neighbouring | "chemical_hybrid" => pure .hybrid
+  | s => throw s!"unknown kind {s}"
+
+def protoOfJson (i : Nat) (j : Json) : R Proto := do
+  let defs ← listOf asNat (← fld j "defs")
+  let product := match j.getObjVal? "product" with
+    | .ok (.str s) => s
+    | _ => s!"p{i}"
+  return ⟨i, ← locOfJson (← fld j "loc"), ← locOfJson (← fld j "core"), defs, product⟩
+
+def candToJson (c : Cand) : Json :=
+  jObj [("kind", Json.str (kindToStr c.kind)), ("members", toJson (c.members.map (·.id))), ("loc", locToJson c.loc)]
+
+def candOfJson (ps : List Proto) (j : Json) : R Cand := do
+  let ids ← listOf asNat (← fld j "members")
+  let ms ← ids.mapM fun i => match ps.find? (·.id == i) with
+    | some p => pure p
+    | none => throw s!"unknown member {i}"
+  return ⟨← kindOfStr (← strF j "kind"), ms, ← locOfJson (← fld j "loc")⟩
+
+def checks (ps : List Proto) (wrap : Option Int) (cs : List Cand) : Json :=
+  jObj [("covers", toJson (Spec.coversAll ps cs)), ("members_ok", toJson (Spec.membersOK ps cs)),
+        ("locations_ok", toJson (Spec.locationsOK wrap cs)), ("no_dups", toJson (Spec.noDuplicates cs)),
+        ("sizes_ok", toJson (Spec.sizesOK cs))]
+
+/-- what the pipeline guarantees for every protocluster: extent and core are areas of the record
+    (one part, or two parts meeting at the origin of a circular record), forward strand, the core
+    inside the extent -/
+def protoOK (w : Int) (len : Int) (p : Proto) : Bool :=
+  areaWF w len p.loc && areaWF w len p.core && locationContainsOther p.loc p.core &&
+  (p.loc.parts ++ p.core.parts).all (·.strand == .fwd)
+
+def handle (j : Json) : R Json := do
+  let w := intFD j "wrap" 0
+  let wrap : Option Int := if w = 0 then none else some w
+  let psJ ← arrF j "ps"
+  let ps ← (psJ.zipIdx).mapM fun (x : Json × Nat) => protoOfJson x.2 x.1
+  let len := if w = 0 then maxList (0 :: ps.map (·.loc.end)) else w
+  let model := formation ps wrap
+  let modelJ := match model with
+    | .ok cs => jObj [("ok", jArr (cs.map candToJson))]
+    | .error e => jObj [("err", Json.str e)]
+  let specJ := match Spec.reference ps wrap with
+    | .ok es => jObj [("ok", jArr (es.map fun e => jObj [("kind", Json.str (kindToStr e.1)), ("members", toJson (e.2.map (·.id)))]))]
+    | .error e => jObj [("err", Json.str e)]
+  let onModel := match model with
+    | .ok cs => checks ps wrap cs
+    | .error _ => Json.null
+  let onImpl ← match j.getObjVal? "impl" with
+    | .ok (.arr a) => do
+      let cs ← a.toList.mapM (candOfJson ps)
+      pure (checks ps wrap cs)
+    | _ => pure Json.null
+  return jObj [("model", modelJ), ("spec", specJ), ("on_model", onModel), ("on_impl", onImpl),
+               ("scope", toJson (ps.all (protoOK w len))), ("linear", toJson (w == 0))]
 
 end ASV.Drv.C05
